@@ -482,6 +482,39 @@ def stage_c(ctx, procs):
             kinds_seen[kind] = kinds_seen.get(kind, 0) + 1
             ctx.nt('Ci%d/%s/%s' % (s, kind, pos))
             jobs.append((sid, kind, pos, K.render(bad), bad))
+    # size as a dimension: well-formed schemas whose model has several hundred nodes (node ids, parent links and signer
+    # ids beyond 256 - seed round 7: ids compared by object identity after a save / load); judged like any other
+    # well-formed schema (accepted, and the saved model is loaded again), queried on a few names of its own
+    for big in range(ctx.pick(2, 6)):
+        nrules = 70 + 25 * big
+        rules = [{'id': '#anchor', 'name': [{'k': 'v', 'v': 'root%d' % big}, {'k': 'p', 'p': '_k'}], 'cons': [], 'sign': []}]
+        for i in range(nrules):
+            rules.append({'id': '#b%d' % i,
+                          'name': [{'k': 'v', 'v': 'p%d' % i}, {'k': 'p', 'p': 'a'}, {'k': 'v', 'v': 'q%d' % (i % 7)},
+                                   {'k': 'p', 'p': '_t'}, {'k': 'v', 'v': 's%d' % i}],
+                          'cons': [], 'sign': ['#anchor'] if i % 3 else (['#b%d' % (i - 1)] if i else ['#anchor'])})
+        text = K.render(rules)
+        oc, ck, msg, note = K.build2(text)
+        ctx.traces += 1
+        sid += 1
+        rec = {'sid': sid, 'kind': 'w', 'rules': rules, 'outcome': oc, 'loadok': False}
+        if ck is not None:
+            lo, ck2 = load_outcome(ck.save())
+            rec['loadok'] = lo == 'ok'
+            rec['model'] = K.dump_model(ck.model)
+            ctx.extra['largest_model_nodes'] = max(ctx.extra.get('largest_model_nodes', 0), len(ck.model.nodes))
+            if ck2 is not None:
+                from ndn import encoding as _enc
+                for i in (0, nrules // 2, nrules - 1):
+                    nmq = _enc.Name.from_str('/p%d/x/q%d/y/s%d' % (i, i % 7, i))
+                    got = sorted(r for m in ck2.match(nmq) for r in m[0])
+                    if got != ['#b%d' % i]:
+                        ctx.violation('C13/Checker.load/large-model/match-differs',
+                                      'model of %d nodes loaded from bytes: match(%s) -> %s' % (len(ck.model.nodes), _enc.Name.to_str(nmq), got),
+                                      {'kind': 'text', 'text': text})
+                        break
+        wrecs.append(rec)
+        meta[sid] = ('original', (), 'large schema of %d rules (#b<i>: "p<i>"/a/"q<i mod 7>"/_t/"s<i>" <= ...)' % nrules, msg)
     for (jsid, kind, pos, btext, bad), (boc, bmsg, bmodel, bload) in zip(jobs, K.build_many([j[3] for j in jobs], procs)):
         ctx.evaluations += 1
         r2 = {'sid': jsid, 'kind': 'w', 'rules': bad, 'outcome': boc, 'loadok': bload}
